@@ -102,6 +102,11 @@ def _odd_exception_class(kind):
         cls.__qualname__ = "Outer.<locals>.Q"
         cls.__module__ = ""
         return cls
+    if kind == 3:
+        # notes attached to the exception (PEP 678) need not be a list of str: __notes__ is an ordinary attribute
+        return type("Noted", (AppError,), {"__notes__": ["context", 5, b"\xff", None]})
+    if kind == 4:
+        return type("NotedOddly", (AppError,), {"__notes__": 42})
     return AppError
 
 
@@ -303,7 +308,7 @@ def body_E1(ctx):
             ctx.fail("log_call swallowed the application's exception")
 
     kinds = [k_log_message, k_action_log, k_message_old, k_typed_message, k_with_ok, k_with_raise, k_typed_action, k_explicit_finish, k_traceback, k_log_call]
-    if sh.get("xchain"):
+    if sh.get("xchain") or sh.get("exc_kinds"):
         kinds = [k_with_raise, k_typed_action, k_explicit_finish, k_traceback, k_log_call]  # the kinds that consult extractors
     elif sh.get("only_kinds"):
         kinds = kinds[: int(sh["only_kinds"])] + [k_with_raise]
@@ -397,6 +402,8 @@ def _e1_shards(tier):
             out.append({"calls": 1, "F": 2, "flaky_first": 1, "fault_exc": 0, "errcls": 0, "mtype": mt, "only_kinds": 2})
         base = {"calls": 1, "F": 3, "flaky_first": 1, "fault_exc": 0, "errcls": 0, "xchain": 1, "only_kinds": 0}
         out += [dict(base, prefix=p) for p in enumerate_prefixes(body_E1, "X", {}, base, 1)]
+        for ec in (3, 4):
+            out.append({"calls": 1, "F": 1, "flaky_first": 1, "fault_exc": 0, "errcls": ec, "exc_kinds": 1})
         return out
     for ff, fe in ((1, 0), (0, 1)):
         base = {"calls": 2, "F": 2, "flaky_first": ff, "fault_exc": fe}
@@ -406,6 +413,8 @@ def _e1_shards(tier):
         out += [dict(base, prefix=p) for p in enumerate_prefixes(body_E1, "X", {}, base, 2)]
     for mt in (1, 2, 3, 4):
         out.append({"calls": 2, "F": 2, "flaky_first": mt % 2, "fault_exc": 0, "errcls": 0, "mtype": mt, "only_kinds": 2})
+    for ec in (3, 4):
+        out.append({"calls": 1, "F": 2, "flaky_first": 1, "fault_exc": 0, "errcls": ec, "exc_kinds": 1})
     return out
 
 
@@ -415,7 +424,7 @@ OBLIGATIONS = [
         E1,
         body_E1,
         "X",
-        desc="10 entry-point kinds x 12 hostile values x 3 application exception classes (ordinary / __module__ None / empty __module__) x 2 extractor result shapes (plain / keys colliding with message fields) x fault masks over serializers/extractors/destination (faults raise IOError, an unhashable exception, an exception whose str() raises, or StopIteration): no logging call raises, application exceptions and return values pass through",
+        desc="10 entry-point kinds x 12 hostile values x 5 application exception classes (ordinary / __module__ None / empty __module__ / __notes__ holding non-text items / __notes__ not a sequence) x 2 extractor result shapes (plain / keys colliding with message fields) x fault masks over serializers/extractors/destination (faults raise IOError, an unhashable exception, an exception whose str() raises, or StopIteration): no logging call raises, application exceptions and return values pass through",
         functions=["Logger.write", "Destinations.send", "_safe_unicode_dictionary", "safeunicode", "saferepr", "ErrorExtraction.get_fields_for_exception", "write_traceback", "Action.finish", "Action.__exit__", "log_call", "MessageType.log", "ActionType.__call__", "Message.log", "Message.write", "FileDestination.__call__"],
         shards=_e1_shards,
         twin=[{"calls": 1, "F": 2, "flaky_first": 1, "twin_label": "two-faults"}],
